@@ -1,4 +1,8 @@
-"""C20 — linked surveys stay mutually consistent (sibling tables, propagation, copy provenance)."""
+"""C20 — linked surveys stay mutually consistent (sibling tables, propagation, copy provenance).
+
+The rules look at NORMALISED functions (ctx.view: private helpers expanded, hoisted literals substituted) and decide by
+value origins (sa/rules/_c20_sem.py: what a local may stand for), so that aliases, temporaries, renamed locals, extracted
+helpers, hoisted tables, guard clauses and loops over name tables do not change a verdict."""
 
 from __future__ import annotations
 
@@ -6,6 +10,40 @@ import ast
 
 from ..model import AnalysisError, unparse
 from ..report import RuleResult
+from ._c20_sem import (Flow, attr_stores, callee_names, const_seq, dict_keys, is_em_dataset, is_metadata_of, is_self, keys_read,
+                       view)
+
+
+def _global_resolver(p, mod):
+    """name -> module / imported level defining expression (or None)."""
+    def resolve(name):
+        r = p.resolve_name(mod, name)
+        if r and r[0] == "assign":
+            return r[1][1]
+        return None
+
+    return resolve
+
+
+def _flow(ctx, fv, fn, tables=None) -> Flow:
+    """Value origins inside the (normalised) function fv of fn; string constants and literal tables hoisted to module /
+    class level are followed as well (whatever name they were given)."""
+    p = ctx.p
+    glob = _global_resolver(p, fn.module)
+
+    def outer(kind, name):
+        if kind == "global":
+            return glob(name)
+        K = fn.cls
+        if K is None:
+            return None
+        if name.startswith("__") and not name.endswith("__"):
+            a = K.class_assigns.get(name)
+            return a[0] if a else None
+        m = K.lookup(name)
+        return m[2] if m and m[1] == "assign" else None
+
+    return Flow(fv.node, tables, outer)
 
 
 def em_tables(ctx):
@@ -13,12 +51,15 @@ def em_tables(ctx):
     mod = p.module("objects/surveys/electromagnetics/base.py")
     type_map = p.const_dict(mod, "TYPE_MAP")
     omit = mod.assigns.get("OMIT_LIST")
-    if not isinstance(omit, (ast.List, ast.Tuple)):
+    if omit is None:
         raise AnalysisError("anchor OMIT_LIST not found in electromagnetics/base.py")
-    return mod, type_map, [e.value for e in omit.elts if isinstance(e, ast.Constant)]
+    vals = const_seq(None, omit, _global_resolver(p, mod))
+    if vals is None:
+        raise AnalysisError("anchor OMIT_LIST in electromagnetics/base.py is not a sequence of constants")
+    return mod, type_map, sorted(vals)
 
 
-def const_return(K, name):
+def const_return(K, name, p=None):
     """Value of a property/classmethod that returns a class-private constant or a literal:
     returns (kind, value) with kind in 'const' | 'class' | 'self-attr' | 'none' | None."""
     m = K.lookup(name)
@@ -31,20 +72,50 @@ def const_return(K, name):
     if len(rets) != 1 or rets[0].value is None:
         return ("none", None) if not rets or rets[0].value is None else (None, None)
     v = rets[0].value
+    # a local holding the value: `value = self.__X; return value`
+    if isinstance(v, ast.Name):
+        alts = Flow(fn.node).alts(v)
+        if len(alts) == 1:
+            v = alts[0]
     if isinstance(v, ast.Constant):
         return ("none", None) if v.value is None else ("const", v.value)
-    if isinstance(v, ast.Attribute) and isinstance(v.value, ast.Name) and v.value.id in ("self", "cls"):
-        if v.attr.startswith("__") and not v.attr.endswith("__"):
-            owner = fn.cls
-            a = owner.class_assigns.get(v.attr)
-            if a and isinstance(a[0], ast.Constant):
-                return ("const", a[0].value)
-            return (None, None)
-        return ("self-attr", v.attr)
+    me = {"self", "cls", fn.self_name or "self"}
+    if isinstance(v, ast.Attribute):
+        recv = v.value
+        own = isinstance(recv, ast.Name) and recv.id in me
+        # type(self).X / self.__class__.X
+        if not own and ((isinstance(recv, ast.Call) and isinstance(recv.func, ast.Name) and recv.func.id == "type" and len(recv.args) == 1
+                         and isinstance(recv.args[0], ast.Name) and recv.args[0].id in me)
+                        or (isinstance(recv, ast.Attribute) and recv.attr == "__class__" and isinstance(recv.value, ast.Name) and recv.value.id in me)):
+            own = True
+        owner_cls = None
+        if not own and isinstance(recv, ast.Name) and p is not None:
+            r = p.resolve_name(fn.module, recv.id)
+            if r and r[0] == "class":
+                owner_cls = r[1]
+        if own or owner_cls is not None:
+            if v.attr.startswith("__") and not v.attr.endswith("__"):
+                owner = fn.cls  # mangled with the class the code is written in
+                a = owner.class_assigns.get(v.attr) if owner is not None else None
+                if a and isinstance(a[0], ast.Constant):
+                    return ("const", a[0].value)
+                return (None, None)
+            look = (owner_cls or K).lookup(v.attr)
+            if look and look[1] == "assign" and isinstance(look[2], ast.Constant) and isinstance(look[2].value, str):
+                return ("const", look[2].value)
+            if own:
+                return ("self-attr", v.attr)
     if isinstance(v, ast.Name):
-        r = K.module and None
+        if p is not None:
+            r = p.resolve_name(fn.module, v.id)
+            if r and r[0] == "class":
+                return ("class", r[1].name)
+            if r and r[0] == "assign" and isinstance(r[1][1], ast.Constant):
+                c = r[1][1].value
+                return ("none", None) if c is None else ("const", c)
         return ("class", v.id)
-    if isinstance(v, ast.Call) and unparse(v) == "type(None)":
+    if isinstance(v, ast.Call) and isinstance(v.func, ast.Name) and v.func.id == "type" and len(v.args) == 1 \
+            and isinstance(v.args[0], ast.Constant) and v.args[0].value is None:
         return ("nonetype", None)
     return (None, unparse(v))
 
@@ -54,10 +125,37 @@ def em_classes(ctx):
     base = p.cls("BaseEMSurvey")
     out = []
     for K in p.subclasses(base, strict=True):
-        kind, val = const_return(K, "type")
+        kind, val = const_return(K, "type", p)
         if kind == "const":
             out.append((K, val))
     return out
+
+
+def _default_em_keys(ctx, K):
+    """(keys of the 'EM Dataset' dictionary built by K.default_metadata, the getter)."""
+    dm = K.lookup("default_metadata")
+    keys = set()
+    g = None
+    if dm and dm[1] == "prop" and dm[2].getter is not None:
+        g = dm[2].getter
+        gv = view(ctx, g)
+        fl = _flow(ctx, gv, g)
+        dicts = [d for d in ast.walk(gv.node) if isinstance(d, ast.Dict)]
+        # the returned value may be a (copy of a) table hoisted to module / class level
+        for r in ast.walk(gv.node):
+            if isinstance(r, ast.Return) and r.value is not None:
+                for o in fl.origins(r.value):
+                    while isinstance(o, ast.Call) and len(o.args) == 1 and not o.keywords and callee_names(fl, o) & {"deepcopy", "copy", "dict"}:
+                        o = (fl.origins(o.args[0]) or [o.args[0]])[0]
+                    dicts += [d for d in ast.walk(o) if isinstance(d, ast.Dict) and all(d is not x for x in dicts)]
+        for d in dicts:
+            for k, v in zip(d.keys, d.values):
+                if k is None or fl.consts(k) != {"EM Dataset"}:
+                    continue
+                got = dict_keys(fl, v)
+                if got is not None:
+                    keys = set(got[0])
+    return keys, g
 
 
 def rule_keys(ctx) -> RuleResult:
@@ -76,6 +174,7 @@ def rule_keys(ctx) -> RuleResult:
     if len(classes) < 10:
         raise AnalysisError(f"C20.KEYS: only {len(classes)} concrete EM survey classes found")
     by_name = {K.name: (K, t) for K, t in classes}
+    acc_cache: dict = {}
     for K, typ in classes:
         # a. type in TYPE_MAP
         ok = typ in type_map
@@ -84,17 +183,10 @@ def rule_keys(ctx) -> RuleResult:
             res.find(K.name, "type", f"type {typ!r} is not a TYPE_MAP key", K.where, "links cannot be resolved for this class")
             continue
         own_link = type_map[typ]
-        dm = K.lookup("default_metadata")
-        dkeys = set()
-        if dm and dm[1] == "prop":
-            for d in ast.walk(dm[2].getter.node):
-                if isinstance(d, ast.Dict):
-                    for k, v in zip(d.keys, d.values):
-                        if isinstance(k, ast.Constant) and k.value == "EM Dataset" and isinstance(v, ast.Dict):
-                            dkeys = {kk.value for kk in v.keys if isinstance(kk, ast.Constant)}
+        dkeys, dm_getter = _default_em_keys(ctx, K)
         partner_keys = (dkeys & set(type_map)) - {typ}
         # b. complement
-        kind, val = const_return(K, "complement")
+        kind, val = const_return(K, "complement", p)
         if not partner_keys and kind == "none":
             res.inst(f"{K.name}: no partner kind in default_metadata, complement is None")
             okc = False
@@ -106,7 +198,7 @@ def rule_keys(ctx) -> RuleResult:
             ok_own = typ in dkeys
             res.inst(f"{K.name}.default_metadata has its own key {typ!r}", ok=ok_own)
             if not ok_own:
-                res.find(K.name, "default_metadata", f"own link key {typ!r} missing from default_metadata", dm[2].getter.where if dm else K.where,
+                res.find(K.name, "default_metadata", f"own link key {typ!r} missing from default_metadata", dm_getter.where if dm_getter else K.where,
                          "the entity does not record itself in the shared metadata")
         if not no_partner:
             res.inst(f"{K.name}.complement -> self.{val}", ok=okc)
@@ -117,7 +209,7 @@ def rule_keys(ctx) -> RuleResult:
                      "the wrong partner (or to themselves)")
         # c. default types
         for prop, want in (("default_receiver_type", "Receivers"), ("default_transmitter_type", "Transmitters")):
-            k2, v2 = const_return(K, prop)
+            k2, v2 = const_return(K, prop, p)
             if k2 == "class":
                 tgt = by_name.get(v2)
                 ok2 = tgt is not None and tgt[1] == want
@@ -129,20 +221,13 @@ def rule_keys(ctx) -> RuleResult:
             elif k2 == "nonetype":
                 res.inst(f"{K.name}.{prop} -> type(None) (no such partner)")
         # d. default_metadata keys
-        m = K.lookup("default_metadata")
-        keys = set()
-        if m and m[1] == "prop":
-            for d in ast.walk(m[2].getter.node):
-                if isinstance(d, ast.Dict):
-                    for k, v in zip(d.keys, d.values):
-                        if isinstance(k, ast.Constant) and k.value == "EM Dataset" and isinstance(v, ast.Dict):
-                            keys = {kk.value for kk in v.keys if isinstance(kk, ast.Constant)}
+        keys = dkeys
         need = {typ} | ({inv[val]} if okc else set())
         okd = need <= keys
         res.inst(f"{K.name}.default_metadata has link keys {sorted(need)}", ok=okd)
         if not okd:
             res.find(K.name, "default_metadata", f"link keys {sorted(need - keys)} missing from default_metadata",
-                     m[2].getter.where if m else K.where,
+                     dm_getter.where if dm_getter else K.where,
                      "the metadata setter only requires the keys of default_metadata: a dictionary without the partner's key is accepted "
                      "and the link is silently lost")
         # e. getter / setter keys per link property
@@ -151,10 +236,10 @@ def rule_keys(ctx) -> RuleResult:
             if not mm or mm[1] != "prop":
                 continue
             g, s = mm[2].getter, mm[2].setter
-            gkeys = _em_keys_read(g) if g else set()
+            gkeys = _cached(acc_cache, ("g", g), lambda: _em_keys_read(g, ctx)) if g else set()
             if g is not None and _returns_self_only(g):
                 gkeys = {key}
-            skeys = _em_keys_written(s) if s else set()
+            skeys, stores = _cached(acc_cache, ("s", s), lambda: (_em_keys_written(s, ctx), _stores_field(s, "_" + link, ctx))) if s else (set(), False)
             if gkeys:
                 okg = gkeys == {key}
                 res.inst(f"{K.name}.{link} getter reads {sorted(gkeys)}", ok=okg)
@@ -163,7 +248,6 @@ def rule_keys(ctx) -> RuleResult:
                              "after re-opening the entity resolves a different partner than the one the setter recorded")
             if s is not None and skeys:
                 oks = skeys == {key}
-                stores = any(isinstance(n, ast.Attribute) and n.attr == "_" + link and isinstance(n.ctx, ast.Store) for n in ast.walk(s.node))
                 res.inst(f"{K.name}.{link} setter writes {sorted(skeys)} and stores _{link}: {stores}", ok=oks and stores)
                 if not oks:
                     res.find(s.cls.name, link, f"setter writes metadata key {sorted(skeys)}, TYPE_MAP says {key!r}", s.where,
@@ -178,52 +262,125 @@ def rule_keys(ctx) -> RuleResult:
         pr = K.props.get(link)
         if pr is None or pr.getter is None or pr.setter is None:
             raise AnalysisError(f"anchor {K.name}.{link} not found")
-        gk = {n.slice.value for n in ast.walk(pr.getter.node) if isinstance(n, ast.Subscript) and unparse(n.value) == "self.metadata" and isinstance(n.slice, ast.Constant)}
+        gv = view(ctx, pr.getter)
+        gsn = pr.getter.self_name or "self"
+        gk = keys_read(_flow(ctx, gv, pr.getter), gv.node, lambda c: is_metadata_of(c, gsn))
         ok = gk == {partner_key}
         res.inst(f"{K.name}.{link} getter reads {sorted(gk)}", ok=ok)
         if not ok:
             res.find(K.name, link, f"getter reads {sorted(gk)}, expected {partner_key!r}", pr.getter.where, "the partner is resolved from the wrong metadata key")
-        arg = pr.setter.params[1]
-        d = next((x for x in ast.walk(pr.setter.node) if isinstance(x, ast.Dict)), None)
-        pairs = {k.value: unparse(v) for k, v in zip(d.keys, d.values) if isinstance(k, ast.Constant)} if d else {}
-        ok = pairs == {partner_key: f"{arg}.uid", own_key: "self.uid"}
-        res.inst(f"{K.name}.{link} setter records {pairs}", nontrivial=True, ok=ok)
+        if len(pr.setter.params) < 2:
+            raise AnalysisError(f"anchor {K.name}.{link} setter has no value parameter")
+        sn, arg = pr.setter.params[0], pr.setter.params[1]
+        sv = view(ctx, pr.setter)
+        fl = _flow(ctx, sv, pr.setter)
+        stores = attr_stores(sv.node, "metadata", fl)
+        # the dictionary (or dictionaries) recorded: key -> the things its value may stand for
+        pairs: dict = {}
+        complete = bool(stores)
+        for _recv, value, _n in stores:
+            got = dict_keys(fl, value)
+            if got is None:
+                complete = False
+                continue
+            for k, v in got[1]:
+                pairs.setdefault(k, set()).update(fl.texts(v))
+        shown = {k: (sorted(v)[0] if len(v) == 1 else sorted(v)) for k, v in pairs.items()}
+        ok = complete and pairs == {partner_key: {f"{arg}.uid"}, own_key: {f"{sn}.uid"}}
+        if not complete and not pairs:
+            shown = {}
+        res.inst(f"{K.name}.{link} setter records {shown}", nontrivial=True, ok=ok)
         if not ok:
-            res.find(K.name, link, f"setter records {pairs}", pr.setter.where,
+            res.find(K.name, link, f"setter records {shown}", pr.setter.where,
                      f"expected {{{partner_key!r}: {arg}.uid, {own_key!r}: self.uid}}: the two identifiers are swapped or missing")
-        both = {unparse(t) for n in ast.walk(pr.setter.node) if isinstance(n, ast.Assign) for t in n.targets if isinstance(t, ast.Attribute) and t.attr == "metadata"}
-        ok = both == {"self.metadata", f"{arg}.metadata"}
+        both = set()
+        for recv, _value, _n in stores:
+            both |= {t + ".metadata" for t in fl.texts(recv)}
+        ok = both == {f"{sn}.metadata", f"{arg}.metadata"}
         res.inst(f"{K.name}.{link} setter assigns the metadata on both entities: {sorted(both)}", ok=ok)
         if not ok:
             res.find(K.name, link, f"metadata assigned on {sorted(both)} only", pr.setter.where, "only one side records the link")
-    bm = p.cls("BaseElectrode").props["metadata"].setter
-    dk = next((x for x in ast.walk(bm.node) if isinstance(x, ast.List) and all(isinstance(e, ast.Constant) for e in x.elts) and x.elts), None)
-    ok = dk is not None and {e.value for e in dk.elts} == {"Current Electrodes", "Potential Electrodes"}
+    bmp = p.cls("BaseElectrode").props.get("metadata")
+    if bmp is None or bmp.setter is None:
+        raise AnalysisError("anchor BaseElectrode.metadata setter not found")
+    bm = bmp.setter
+    bv = view(ctx, bm)
+    fl = _flow(ctx, bv, bm)
+    required = set()
+    for n in ast.walk(bv.node):
+        # keys tested for presence: `<key> in <mapping>` with the key a constant (directly, or a variable ranging over constants)
+        if isinstance(n, ast.Compare) and len(n.ops) == 1 and isinstance(n.ops[0], (ast.In, ast.NotIn)) and not isinstance(n.comparators[0], (ast.List, ast.Tuple, ast.Set, ast.Constant)):
+            ks = fl.consts(n.left)
+            if ks and all(isinstance(k, str) for k in ks):
+                required |= ks
+    if not required:
+        # `required <= mapping.keys()` / loops over a constant sequence of required keys
+        for _tgt, it in fl._loops:
+            ks = const_seq(fl, it, _global_resolver(p, bm.module))
+            if ks and all(isinstance(k, str) for k in ks):
+                required |= ks
+    ok = required == {"Current Electrodes", "Potential Electrodes"}
     res.inst("BaseElectrode.metadata setter requires both electrode keys", ok=ok)
     if not ok:
         res.find("BaseElectrode", "metadata", "required keys are not both electrode keys", bm.where, "metadata missing a partner key is accepted")
     return res
 
 
+def _cached(cache, key, make):
+    if key not in cache:
+        cache[key] = make()
+    return cache[key]
+
+
 def _returns_self_only(g) -> bool:
+    sn = g.self_name or "self"
     rets = [r for r in ast.walk(g.node) if isinstance(r, ast.Return)]
-    return bool(rets) and all(unparse(r.value) == "self" for r in rets)
+    return bool(rets) and all(r.value is not None and is_self(r.value, sn) for r in rets)
 
 
-def _em_keys_read(g) -> set:
+def _em_keys_read(g, ctx) -> set:
+    """Constant keys the getter reads from the 'EM Dataset' dictionary of the entity's own metadata (through aliases,
+    a key held in a variable, `.get`, an extracted look-up helper)."""
+    gv = view(ctx, g)
+    sn = g.self_name or "self"
+    return keys_read(_flow(ctx, gv, g), gv.node, lambda c: is_em_dataset(c, sn))
+
+
+def _em_keys_written(s, ctx) -> set:
+    """Constant keys of the dictionaries handed to edit_em_metadata."""
+    sv = view(ctx, s)
+    fl = _flow(ctx, sv, s)
     out = set()
-    for n in ast.walk(g.node):
-        if isinstance(n, ast.Subscript) and isinstance(n.slice, ast.Constant) and unparse(n.value) == "self.metadata['EM Dataset']" and isinstance(n.ctx, ast.Load):
-            out.add(n.slice.value)
+    for n in ast.walk(sv.node):
+        if isinstance(n, ast.Call) and "edit_em_metadata" in callee_names(fl, n):
+            arg = n.args[0] if n.args else next((k.value for k in n.keywords if k.arg == "entries"), None)
+            if arg is None:
+                continue
+            got = dict_keys(fl, arg)
+            if got is not None:
+                out |= set(got[0])
     return out
 
 
-def _em_keys_written(s) -> set:
-    out = set()
-    for n in ast.walk(s.node):
-        if isinstance(n, ast.Call) and isinstance(n.func, ast.Attribute) and n.func.attr == "edit_em_metadata" and n.args and isinstance(n.args[0], ast.Dict):
-            out |= {k.value for k in n.args[0].keys if isinstance(k, ast.Constant)}
-    return out
+def _stores_field(s, field, ctx) -> bool:
+    sv = view(ctx, s)
+    return bool(attr_stores(sv.node, field, _flow(ctx, sv, s)))
+
+
+def _passes_on_every_path(fn_node, pred) -> bool:
+    """Every path from the entry to the normal exit passes a statement node with pred(stmt ast)."""
+    from ..cfg import CFG
+    from ..kinds import reach
+
+    g = CFG(fn_node)
+
+    def hit(n):
+        a = n.ast
+        if a is None or isinstance(a, (list, ast.If, ast.For, ast.While, ast.With, ast.Try)):
+            return False
+        return pred(a)
+
+    return g.exit not in reach(g, [g.entry], avoid=hit)
 
 
 def rule_prop(ctx) -> RuleResult:
@@ -236,42 +393,84 @@ def rule_prop(ctx) -> RuleResult:
     )
     p = ctx.p
     mod, type_map, omit = em_tables(ctx)
-    st = p.cls("BaseEMSurvey").props["metadata"].setter
-    loops = [n for n in ast.walk(st.node) if isinstance(n, ast.For) and isinstance(n.iter, (ast.List, ast.Tuple))]
-    lp = next((l for l in loops if all(isinstance(e, ast.Constant) for e in l.iter.elts)), None)
-    if lp is None:
-        # the loop may iterate TYPE_MAP.values()
-        lp = next((n for n in ast.walk(st.node) if isinstance(n, ast.For) and "TYPE_MAP" in unparse(n.iter)), None)
-        names = set(type_map.values()) if lp is not None else set()
-    else:
-        names = {e.value for e in lp.iter.elts}
-    ok = lp is not None and set(type_map.values()) <= names
+    pr = p.cls("BaseEMSurvey").props.get("metadata")
+    if pr is None or pr.setter is None or len(pr.setter.params) < 2:
+        raise AnalysisError("anchor BaseEMSurvey.metadata setter not found")
+    st = pr.setter
+    sn, prm = st.params[0], st.params[1]
+    sv = view(ctx, st)
+    fl = _flow(ctx, sv, st, tables={"TYPE_MAP": type_map})
+
+    def links_of(e) -> set:
+        """Names L such that `e` may stand for the partner `getattr(self, L, ...)` / `self.L`."""
+        out = set()
+        for a in fl.origins(e):
+            if isinstance(a, ast.Call) and isinstance(a.func, ast.Name) and a.func.id == "getattr" and len(a.args) >= 2 \
+                    and any(is_self(x, sn) for x in fl.origins(a.args[0])):
+                out |= {k for k in (fl.consts(a.args[1]) or ()) if isinstance(k, str)}
+            elif isinstance(a, ast.Attribute) and isinstance(a.ctx, ast.Load) and any(is_self(x, sn) for x in fl.origins(a.value)):
+                out.add(a.attr)
+        return out
+
+    # partners enumerated: what the things that receive a `_metadata` / are handed to update_attribute(.., 'metadata') /
+    # are looked up with getattr(self, <name>) may stand for
+    cands = [r for r, _, _ in attr_stores(sv.node, "_metadata", fl)]
+    for n in ast.walk(sv.node):
+        if isinstance(n, ast.Call) and "update_attribute" in callee_names(fl, n) and len(n.args) > 1 and fl.consts(n.args[1]) == {"metadata"}:
+            cands.append(n.args[0])
+        elif isinstance(n, ast.Call) and isinstance(n.func, ast.Name) and n.func.id == "getattr" and len(n.args) >= 2:
+            cands.append(n)
+    enumerated = set()
+    for c in cands:
+        enumerated |= links_of(c)
+    need = set(type_map.values())
+    ok = need <= enumerated
+    names = enumerated
     res.inst(f"metadata setter loops over {sorted(names)} ⊇ TYPE_MAP values", ok=ok)
     if not ok:
         res.find("BaseEMSurvey", "metadata", f"propagation loop covers {sorted(names)}, TYPE_MAP has {sorted(type_map.values())}", st.where,
                  "a partner kind is not updated when the shared survey parameters change")
-    if lp is not None:
-        body = ast.Module(body=lp.body, type_ignores=[])
-        var = None
-        for n in ast.walk(body):
-            if isinstance(n, ast.Assign) and isinstance(n.value, ast.Call) and unparse(n.value.func) == "getattr":
-                var = n.targets[0].id
-        assigns = [n for n in ast.walk(body) if isinstance(n, ast.Assign) and any(unparse(t) == f"{var}._metadata" for t in n.targets)]
-        ok1 = bool(assigns) and all(unparse(a.value) == st.params[1] for a in assigns)
-        res.inst(f"per partner: {var}._metadata = {st.params[1]}", nontrivial=True, ok=ok1)
+    if enumerated:
+        # the dictionary the entity itself keeps: what is stored in self._metadata (or the parameter handed to the base setter)
+        kept = [v for r, v, _ in attr_stores(sv.node, "_metadata", fl) if any(is_self(a, sn) for a in fl.alts(r))] or [ast.Name(id=prm, ctx=ast.Load())]
+        kept_texts = [fl.texts(v) for v in kept]
+        kept_names = {v.id for v in kept if isinstance(v, ast.Name)}
+
+        def same_dict(w) -> bool:
+            if isinstance(w, ast.Name) and w.id in kept_names:
+                return True
+            tw = fl.texts(w)
+            if any(tw == tk for tk in kept_texts):
+                return True
+            return bool(tw) and all(is_metadata_of(a, sn) for a in fl.alts(w))
+
+        part = [(r, v) for r, v, _ in attr_stores(sv.node, "_metadata", fl) if links_of(r)]
+        covered = set().union(*[links_of(r) for r, _ in part]) if part else set()
+        ok1 = bool(part) and all(same_dict(v) for _, v in part) and (enumerated & need) <= covered
+        res.inst("per partner: <partner>._metadata = <the dictionary stored on self>", nontrivial=True, ok=ok1)
         if not ok1:
             res.find("BaseEMSurvey", "metadata", "partner's _metadata is not bound to the same dictionary", st.where,
                      "edits through one side are not visible on the other")
-        pers = [n for n in ast.walk(body) if isinstance(n, ast.Call) and isinstance(n.func, ast.Attribute) and n.func.attr == "update_attribute"
-                and n.args and unparse(n.args[0]) == var and len(n.args) > 1 and unparse(n.args[1]) == "'metadata'"]
-        ok2 = bool(pers)
-        res.inst(f"per partner: update_attribute({var}, 'metadata')", nontrivial=True, ok=ok2)
+        pers = set()
+        for n in ast.walk(sv.node):
+            if isinstance(n, ast.Call) and "update_attribute" in callee_names(fl, n) and len(n.args) > 1 and fl.consts(n.args[1]) == {"metadata"}:
+                pers |= links_of(n.args[0])
+        ok2 = bool(pers) and (enumerated & need) <= pers
+        res.inst("per partner: update_attribute(<partner>, 'metadata')", nontrivial=True, ok=ok2)
         if not ok2:
             res.find("BaseEMSurvey", "metadata", "partner's metadata is not persisted", st.where,
                      "the partner's copy of the shared parameters on file goes stale")
     ee = p.cls("BaseEMSurvey").methods.get("edit_em_metadata")
-    last = ee.node.body[-1]
-    ok3 = isinstance(last, ast.Assign) and unparse(last.targets[0]) == "self.metadata"
+    if ee is None:
+        raise AnalysisError("anchor BaseEMSurvey.edit_em_metadata not found")
+    ev = view(ctx, ee)
+    esn = ee.self_name or "self"
+    efl = _flow(ctx, ev, ee)
+
+    def sets_metadata(stmt) -> bool:
+        return any(any(is_self(a, esn) for a in efl.alts(r)) for r, _, _ in attr_stores(stmt, "metadata", efl))
+
+    ok3 = _passes_on_every_path(ev.node, sets_metadata)
     res.inst("edit_em_metadata ends with `self.metadata = ...`", ok=ok3)
     if not ok3:
         res.find("BaseEMSurvey", "edit_em_metadata", "does not end in the metadata setter", ee.where,
@@ -308,24 +507,30 @@ def rule_copy(ctx) -> RuleResult:
             if fn is None or fn in seen:
                 continue
             seen.add(fn)
-            # reaching definitions (flow-insensitive within the function) of local names
-            defs: dict[str, list] = {}
-            for n in ast.walk(fn.node):
-                if isinstance(n, (ast.Assign, ast.AnnAssign)) and n.value is not None:
-                    tg = n.targets if isinstance(n, ast.Assign) else [n.target]
-                    for t in tg:
-                        if isinstance(t, ast.Name):
-                            defs.setdefault(t.id, []).append(n.value)
+            fv = view(ctx, fn)
+            sn = fn.self_name or "self"
+            fl = _flow(ctx, fv, fn, tables={"TYPE_MAP": type_map})
+
+            def not_self(e) -> bool:
+                return not any(is_self(a, sn) for a in fl.origins(e))
+
             sinks = []
-            for n in ast.walk(fn.node):
-                if isinstance(n, ast.Assign):
-                    for t in n.targets:
-                        if isinstance(t, ast.Attribute) and t.attr in links and unparse(t.value) != "self":
-                            sinks.append((t, n.value, n))
-                if isinstance(n, ast.Call) and isinstance(n.func, ast.Name) and n.func.id == "setattr" and len(n.args) == 3 and "TYPE_MAP" in unparse(n.args[1]):
-                    sinks.append((n.args[0], n.args[2], n))
+            for link in sorted(links):
+                for recv, val, node in attr_stores(fv.node, link, fl):
+                    if not_self(recv):
+                        tgt = next((t for t in getattr(node, "targets", []) if isinstance(t, ast.Attribute) and t.attr == link), None)
+                        sinks.append((tgt if tgt is not None else recv, val, node))
+            for n in ast.walk(fv.node):
+                # setattr(<new entity>, <name computed from the link table>, value)
+                if isinstance(n, ast.Call) and isinstance(n.func, ast.Name) and n.func.id == "setattr" and len(n.args) == 3 and not isinstance(n.args[1], ast.Constant):
+                    alts = fl.alts(n.args[1])
+                    from_table = any(isinstance(x, ast.Name) and x.id == "TYPE_MAP" for a in alts for x in ast.walk(a))
+                    to_link = any(isinstance(a, ast.Constant) and a.value in links for a in alts)
+                    if (from_table or to_link) and not_self(n.args[0]):
+                        sinks.append((n.args[0], n.args[2], n))
+            sinks.sort(key=lambda s: (s[2].lineno, s[2].col_offset))
             for tgt, val, node in sinks:
-                srcs = defs.get(val.id, []) if isinstance(val, ast.Name) else [val]
+                srcs = fl.origins(val)
                 good = bool(srcs) and all(
                     isinstance(s, ast.Call) and isinstance(s.func, ast.Attribute) and s.func.attr in COPY_CALLS for s in srcs
                 )
@@ -334,30 +539,36 @@ def rule_copy(ctx) -> RuleResult:
                     res.find(fn.cls.name, fn.name, f"link {unparse(tgt)[:40]} assigned from {unparse(val)[:40]}", f"{fn.module.relpath}:{node.lineno}",
                              "the copy is linked to an object that does not come from a copy call (the original partner): both the original and "
                              "the copy now point at the same partner and its metadata is overwritten")
-            # omit lists handed to the copy calls
-            for n in ast.walk(fn.node):
-                if isinstance(n, ast.Call) and isinstance(n.func, ast.Attribute) and n.func.attr in COPY_CALLS and ("super" in unparse(n.func.value) or "complement" in unparse(n.func.value)):
-                    kw = next((k for k in n.keywords if k.arg == "omit_list"), None)
-                    if kw is None:
-                        ok = False
-                        got = None
-                    else:
-                        v = kw.value
-                        if isinstance(v, ast.Name) and v.id in defs:
-                            v = defs[v.id][0]
-                        if isinstance(v, ast.Name) and v.id == "OMIT_LIST":
-                            got = set(omit)
-                        elif isinstance(v, (ast.List, ast.Tuple)):
-                            got = {e.value for e in v.elts if isinstance(e, ast.Constant)}
-                        else:
-                            got = None
-                        want = {"_metadata"} | ({"_potential_electrodes", "_current_electrodes"} if p.cls("BaseElectrode") in K.mro else {"_" + x for x in type_map.values()})
-                        ok = got is not None and want <= got
-                    res.inst(f"{fn.qualname}:{n.lineno} {unparse(n.func)[:40]}(omit_list={sorted(got) if got else got})", ok=ok)
-                    if not ok:
-                        res.find(fn.cls.name, fn.name, f"{unparse(n.func)[:40]} without the link fields in omit_list", f"{fn.module.relpath}:{n.lineno}",
-                                 "link fields / metadata are harvested from the source and handed to the copy's constructor")
+            # omit lists handed to the copy calls on entities (super().copy / <partner>.copy / ._super_copy)
+            resolve = _global_resolver(p, fn.module)
+            for n in ast.walk(fv.node):
+                if not (isinstance(n, ast.Call) and isinstance(n.func, ast.Attribute) and n.func.attr in COPY_CALLS):
+                    continue
+                if n.func.attr == "copy" and not any(_entity_receiver(a, links) for a in fl.alts(n.func.value)):
+                    continue
+                want = {"_metadata"} | ({"_potential_electrodes", "_current_electrodes"} if p.cls("BaseElectrode") in K.mro else {"_" + x for x in type_map.values()})
+                kwv = next((k.value for k in n.keywords if k.arg == "omit_list"), None)
+                if kwv is None:
+                    # handed over inside a `**options` dictionary
+                    for k in n.keywords:
+                        if k.arg is None:
+                            got_d = dict_keys(fl, k.value)
+                            if got_d is not None:
+                                kwv = next((v for kk, v in got_d[1] if kk == "omit_list"), kwv)
+                got = const_seq(fl, kwv, resolve) if kwv is not None else None
+                ok = got is not None and want <= got
+                res.inst(f"{fn.qualname}:{n.lineno} {unparse(n.func)[:40]}(omit_list={sorted(got) if got else got})", ok=ok)
+                if not ok:
+                    res.find(fn.cls.name, fn.name, f"{unparse(n.func)[:40]} without the link fields in omit_list", f"{fn.module.relpath}:{n.lineno}",
+                             "link fields / metadata are harvested from the source and handed to the copy's constructor")
     return res
+
+
+def _entity_receiver(e, links) -> bool:
+    """Receiver of a `.copy(...)` that is a survey entity: super() / super(A, b), or an expression through a link / complement."""
+    if isinstance(e, ast.Call) and isinstance(e.func, ast.Name) and e.func.id == "super":
+        return True
+    return any(isinstance(x, ast.Attribute) and (x.attr in links or x.attr == "complement") for x in ast.walk(e))
 
 
 def rule_store(ctx) -> RuleResult:
@@ -371,8 +582,6 @@ def rule_store(ctx) -> RuleResult:
         floor=2,
     )
     p = ctx.p
-    from ..cfg import CFG
-    from ..kinds import reach
 
     for cname in ("BaseEMSurvey", "BaseElectrode"):
         K = p.cls(cname)
@@ -381,20 +590,25 @@ def rule_store(ctx) -> RuleResult:
             raise AnalysisError(f"anchor {cname}.metadata setter not found")
         st = pr.setter
         sn = st.self_name or "self"
-        g = CFG(st.node)
+        sv = view(ctx, st)
+        fl = _flow(ctx, sv, st)
 
-        def stores(n):
-            a = n.ast
-            if a is None or isinstance(a, (list, ast.If, ast.For, ast.While, ast.With, ast.Try)):
-                return False
+        def stores(a):
             for x in ast.walk(a):
-                if isinstance(x, ast.Call) and isinstance(x.func, ast.Attribute) and x.func.attr == "fset" and "metadata" in unparse(x.func):
-                    return True
-                if isinstance(x, ast.Call) and isinstance(x.func, ast.Attribute) and x.func.attr == "update_attribute" and x.args and unparse(x.args[0]) == sn:
-                    return True
+                if not isinstance(x, ast.Call):
+                    continue
+                # the function called: as written, or what a local holding a bound method stands for
+                for f in ([x.func] if isinstance(x.func, ast.Attribute) else fl.values(x.func) if isinstance(x.func, ast.Name) else []):
+                    if not isinstance(f, ast.Attribute):
+                        continue
+                    # delegation to the base class' setter: <...>.metadata.fset(self, ...)
+                    if f.attr == "fset" and any(isinstance(y, ast.Attribute) and y.attr == "metadata" for y in ast.walk(f.value)):
+                        return True
+                    if f.attr == "update_attribute" and x.args and any(is_self(y, sn) for y in fl.origins(x.args[0])):
+                        return True
             return False
 
-        ok = g.exit not in reach(g, [g.entry], avoid=stores)
+        ok = _passes_on_every_path(sv.node, stores)
         res.inst(f"{cname}.metadata setter: every normal exit passes the store / base-setter delegation", nontrivial=True, ok=ok)
         if not ok:
             rets = [n for n in ast.walk(st.node) if isinstance(n, ast.Return)]
@@ -422,17 +636,19 @@ def rule_mangle(ctx) -> RuleResult:
         for st in K.node.body:
             if isinstance(st, (ast.Assign, ast.AnnAssign)):
                 for t in (st.targets if isinstance(st, ast.Assign) else [st.target]):
-                    if isinstance(t, ast.Name):
-                        body_defs.add(t.id)
+                    for x in ast.walk(t):
+                        if isinstance(x, ast.Name):
+                            body_defs.add(x.id)
         fns = list(K.methods.values()) + [f for pr in K.props.values() for f in (pr.getter, pr.setter, pr.deleter) if f is not None and f.cls is K]
         for fn in fns:
             for x in ast.walk(fn.node):
                 if isinstance(x, ast.Attribute) and isinstance(x.ctx, (ast.Store,)) and x.attr.startswith("__") and not x.attr.endswith("__"):
                     body_defs.add(x.attr)
         for fn in fns:
+            me = {"self", "cls"} | ({fn.self_name} if fn.self_name else set())
             for x in ast.walk(fn.node):
                 if isinstance(x, ast.Attribute) and isinstance(x.ctx, ast.Load) and x.attr.startswith("__") and not x.attr.endswith("__") \
-                        and isinstance(x.value, ast.Name) and x.value.id in ("self", "cls"):
+                        and isinstance(x.value, ast.Name) and x.value.id in me:
                     ok = x.attr in body_defs
                     res.inst(f"{K.name}.{fn.name}: reads {x.value.id}.{x.attr}, defined in {K.name}: {ok}", ok=ok)
                     if not ok:
